@@ -427,3 +427,43 @@ def outcomes_under_optimized_interpreter(snippets, timeout=300):
                 return ["inconclusive:child not optimised"] * len(snippets)
             return d["out"]
     return [f"inconclusive:child exited {r.returncode}: {r.stderr[-200:]}"] * len(snippets)
+
+
+def values_under_hash_seeds(code, payload, seeds, timeout=300):
+    """Run `code` (Python source that reads the JSON `payload` from the name `payload` and leaves a
+    JSON-serialisable `result`) in one child interpreter per PYTHONHASHSEED, all at once, against the
+    repository under test. Returns {seed: result | 'inconclusive:<why>'}. Iteration order of sets (and of
+    anything keyed by str hashes) differs from one interpreter to the next; results must not."""
+    import json
+    import os
+    import subprocess
+
+    from vf import harness
+
+    driver = (
+        "import json, sys, warnings\n"
+        "warnings.simplefilter('ignore')\n"
+        "import numpy as np\n"
+        "payload = json.loads(sys.stdin.read())\n"
+        "g = {'np': np, 'payload': payload}\n"
+        "exec(payload['__code__'], g)\n"
+        "print('VFOUT' + json.dumps({'hash_randomization': sys.flags.hash_randomization, 'result': g['result']}))\n"
+    )
+    procs = {}
+    for sd in seeds:
+        env = dict(os.environ, PYTHONPATH=os.path.join(harness.REPO, "src"), MPLBACKEND="Agg", PYTHONHASHSEED=str(sd))
+        p = subprocess.Popen([sys.executable, "-c", driver], stdin=subprocess.PIPE, stdout=subprocess.PIPE, stderr=subprocess.PIPE, text=True, env=env)
+        procs[sd] = p
+    out = {}
+    for sd, p in procs.items():
+        try:
+            so, se = p.communicate(json.dumps(dict(payload, __code__=code)), timeout=timeout)
+        except subprocess.TimeoutExpired:
+            p.kill()
+            out[sd] = "inconclusive:timeout"
+            continue
+        out[sd] = f"inconclusive:child exited {p.returncode}: {se[-200:]}"
+        for line in so.splitlines():
+            if line.startswith("VFOUT"):
+                out[sd] = json.loads(line[5:])["result"]
+    return out
